@@ -40,7 +40,7 @@ class Trace {                      // ndjson event log
     std::size_t n_ = 0;
 public:
     explicit Trace(const std::string& path) : out_(path) {}
-    void emit(const json& j) { out_ << j.dump() << '\n'; ++n_; }
+    void emit(const json& j) { out_ << j.dump() << "\n"; out_.flush(); ++n_; }
     void flush() { out_.flush(); }
     std::size_t size() const { return n_; }
 };
